@@ -1,298 +1,313 @@
 import SFV.Lemmas.Registry
-/-! C21: for histories of registrations and invalidations (no relations) every object lives in the node of its own path
-    and the `valid_paths` cache says exactly what the objects say. -/
+/-! C21 after fix 5f6015f: the invariant of every history (registrations, relations, invalidations) and what the
+    structural invalidation walk reaches. -/
 namespace SFV.Registry
 
-/-- every stored object is stored at the node of its own path, under its own location, and exists -/
-def Own (s : St) : Prop :=
-  ∀ np l o, o ∈ s.locs np l → o < s.heap.length ∧ objPath s o = np ∧ objLoc s o = l
+theorem mem_prefixes {q p : Path} : q ∈ prefixes p ↔ q <+: p ∧ q ≠ [] := by
+  induction p generalizing q with
+  | nil => simp [prefixes]
+  | cons x r ih =>
+    simp only [prefixes, List.mem_cons, List.mem_map]
+    constructor
+    · rintro (rfl | ⟨a, ha, rfl⟩)
+      · exact ⟨by simp, by simp⟩
+      · exact ⟨by simpa using (ih.mp ha).1, by simp⟩
+    · rintro ⟨hp, hne⟩
+      cases q with
+      | nil => exact absurd rfl hne
+      | cons y q' =>
+        obtain ⟨rfl, hq'⟩ := List.cons_prefix_cons.mp hp
+        by_cases hq : q' = []
+        · left; rw [hq]
+        · right; exact ⟨q', ih.mpr ⟨hq', hq⟩, rfl⟩
 
-/-- the cache is exact: a path is believed valid at a node iff it is the node's path and a valid object is stored there -/
-def CacheOK (s : St) : Prop :=
-  ∀ np l p, p ∈ s.vpaths np l ↔ (p = np ∧ ∃ o ∈ s.locs np l, objValid s o = true)
+/-- what every reachable registry satisfies -/
+structure WInv (s : St) : Prop where
+  /-- stored objects exist and are stored under their own location -/
+  key : ∀ np l o, o ∈ s.locs np l → o < s.heap.length ∧ objLoc s o = l
+  /-- a valid stored object has its path listed in `valid_paths` of that node -/
+  listed : ∀ np l o, o ∈ s.locs np l → objValid s o = true → objPath s o ∈ s.vpaths np l
+  /-- the trie is prefix closed -/
+  closed : ∀ q ∈ s.nodes, ∀ r, r <+: q → r ≠ [] → r ∈ s.nodes
 
-structure RInv (s : St) : Prop where
-  own : Own s
-  cache : CacheOK s
+theorem winv_init : WInv St.init := ⟨by simp [St.init], by simp [St.init], by simp [St.init]⟩
 
-theorem rinv_init : RInv St.init := ⟨by simp [Own, St.init], by simp [CacheOK, St.init]⟩
+theorem mem_setAddP {vp : List Path} {p q : Path} : q ∈ setAddP vp p ↔ q ∈ vp ∨ q = p := by
+  unfold setAddP; split <;> simp <;> grind
 
-/-! ### heap append -/
-
-theorem objValid_append (s : St) (x : Obj) (nodes : List Path) (o : Nat) (h : o < s.heap.length) :
-    objValid { s with heap := s.heap ++ [x], nodes := nodes } o = objValid s o := by
+theorem objValid_app (s : St) (x : Obj) (o : Nat) (h : o < s.heap.length) :
+    objValid { s with heap := s.heap ++ [x] } o = objValid s o := by
   simp [objValid, List.getElem?_append_left h]
 
-theorem objPath_append (s : St) (x : Obj) (nodes : List Path) (o : Nat) (h : o < s.heap.length) :
-    objPath { s with heap := s.heap ++ [x], nodes := nodes } o = objPath s o := by
+theorem objPath_app (s : St) (x : Obj) (o : Nat) (h : o < s.heap.length) :
+    objPath { s with heap := s.heap ++ [x] } o = objPath s o := by
   simp [objPath, List.getElem?_append_left h]
 
-theorem objLoc_append (s : St) (x : Obj) (nodes : List Path) (o : Nat) (h : o < s.heap.length) :
-    objLoc { s with heap := s.heap ++ [x], nodes := nodes } o = objLoc s o := by
+theorem objLoc_app (s : St) (x : Obj) (o : Nat) (h : o < s.heap.length) :
+    objLoc { s with heap := s.heap ++ [x] } o = objLoc s o := by
   simp [objLoc, List.getElem?_append_left h]
 
-/-- allocating an object and touching the node list keeps the invariant -/
-theorem rinv_alloc {s : St} (h : RInv s) (x : Obj) (nodes : List Path) :
-    RInv { s with heap := s.heap ++ [x], nodes := nodes } := by
-  constructor
+theorem winv_alloc {s : St} (h : WInv s) (x : Obj) : WInv { s with heap := s.heap ++ [x] } := by
+  refine ⟨?_, ?_, h.closed⟩
   · intro np l o ho
-    obtain ⟨h1, h2, h3⟩ := h.own np l o ho
-    exact ⟨by simp; omega, by rw [objPath_append s x nodes o h1]; exact h2, by rw [objLoc_append s x nodes o h1]; exact h3⟩
-  · intro np l p
-    rw [show ({ s with heap := s.heap ++ [x], nodes := nodes } : St).vpaths = s.vpaths from rfl, h.cache np l p]
-    constructor
-    · rintro ⟨e, o, ho, hv⟩
-      exact ⟨e, o, ho, by rw [objValid_append s x nodes o (h.own np l o ho).1]; exact hv⟩
-    · rintro ⟨e, o, ho, hv⟩
-      exact ⟨e, o, ho, by rw [objValid_append s x nodes o (h.own np l o ho).1] at hv; exact hv⟩
+    obtain ⟨h1, h2⟩ := h.key np l o ho
+    exact ⟨by simp; omega, by rw [objLoc_app s x o h1]; exact h2⟩
+  · intro np l o ho hv
+    have h1 := (h.key np l o ho).1
+    rw [objValid_app s x o h1] at hv
+    rw [objPath_app s x o h1]
+    exact h.listed np l o ho hv
 
-/-- storing a valid object `oid` (path `np`, location `l`) at the node `np`, which did not believe `np` valid -/
-theorem rinv_store {s : St} (h : RInv s) (np : Path) (l oid : Nat) (hlt : oid < s.heap.length)
-    (hp : objPath s oid = np) (hl : objLoc s oid = l) (hv : objValid s oid = true) (hnot : np ∉ s.vpaths np l) :
-    RInv { s with locs := upd s.locs np l (s.locs np l ++ [oid]), vpaths := upd s.vpaths np l (s.vpaths np l ++ [np]) } := by
-  constructor
+theorem winv_nodes {s : St} (h : WInv s) (p : Path) : WInv { s with nodes := s.nodes ++ prefixes p } := by
+  refine ⟨h.key, h.listed, ?_⟩
+  intro q hq r hr hne
+  simp only [List.mem_append] at hq ⊢
+  rcases hq with hq | hq
+  · exact Or.inl (h.closed q hq r hr hne)
+  · right; rw [mem_prefixes] at hq ⊢; exact ⟨List.IsPrefix.trans hr hq.1, hne⟩
+
+/-- storing the object `oid` at the node `np` under its own location, listing its path -/
+theorem winv_store {s : St} (h : WInv s) (np : Path) (l oid : Nat) (hlt : oid < s.heap.length) (hl : objLoc s oid = l) :
+    WInv { s with locs := upd s.locs np l (s.locs np l ++ [oid]),
+                  vpaths := upd s.vpaths np l (setAddP (s.vpaths np l) (objPath s oid)) } := by
+  refine ⟨?_, ?_, h.closed⟩
   · intro np' l' o ho
     simp only [upd] at ho
     split at ho
     · rename_i hc
+      obtain ⟨rfl, rfl⟩ := hc
       rcases List.mem_append.mp ho with ho | ho
-      · have := h.own np l o ho; rw [hc.1, hc.2]; exact this
-      · simp at ho; subst ho; rw [hc.1, hc.2]; exact ⟨hlt, hp, hl⟩
-    · exact h.own np' l' o ho
-  · intro np' l' p
-    simp only [upd]
-    by_cases hc : np' = np ∧ l' = l
-    · obtain ⟨rfl, rfl⟩ := hc
-      simp only [and_self, if_true, List.mem_append, List.mem_singleton]
-      constructor
-      · rintro (hm | rfl)
-        · exact absurd (((h.cache np' l' p).mp hm).1 ▸ hm) hnot
-        · exact ⟨rfl, oid, Or.inr rfl, hv⟩
-      · rintro ⟨rfl, _⟩; exact Or.inr rfl
-    · simp only [hc, if_false]
-      exact h.cache np' l' p
+      · exact h.key np' l' o ho
+      · simp at ho; subst ho; exact ⟨hlt, hl⟩
+    · exact h.key np' l' o ho
+  · intro np' l' o ho hv
+    simp only [upd] at ho ⊢
+    split
+    · rename_i hc
+      rw [if_pos hc] at ho
+      rw [mem_setAddP]
+      rcases List.mem_append.mp ho with ho | ho
+      · exact Or.inl (h.listed np l o ho hv)
+      · simp at ho; subst ho; exact Or.inr rfl
+    · rename_i hc
+      rw [if_neg hc] at ho
+      exact h.listed np' l' o ho hv
 
-theorem rinv_nodes {s : St} (h : RInv s) (nodes : List Path) : RInv { s with nodes := nodes } :=
-  ⟨h.own, h.cache⟩
-
-/-- the bottom-up loop of `put` keeps the invariant when the object handed in is valid, exists and carries path `p` -/
-theorem rinv_putLoop (l o : Nat) (p : Path) (nps : List Path) (s : St) (h : RInv s) (ho : o < s.heap.length)
-    (hp : objPath s o = p) (hl : objLoc s o = l) (hv : objValid s o = true) : RInv (putLoop l o p nps s) := by
+/-- `put` keeps the invariant for any existing object stored under its own location -/
+theorem winv_putLoop (l o : Nat) (p : Path) (nps : List Path) (s : St) (h : WInv s) (ho : o < s.heap.length)
+    (hl : objLoc s o = l) : WInv (putLoop l o p nps s) := by
   induction nps generalizing s with
   | nil => exact h
   | cons np rest ih =>
-    simp only [putLoop]
-    have hop : (if np = p then objPath s o else np) = np := by
+    by_cases e : np = p
+    · subst e
+      simp only [putLoop, if_true]
       split
-      · rename_i e; rw [hp, e]
-      · rfl
-    rw [hop]
-    split
-    · exact h
-    · rename_i hnot
-      by_cases e : np = p
-      · subst e
-        simp only [if_true]
-        exact ih _ (rinv_store h np l o ho hp hl hv hnot) ho hp hl hv
-      · simp only [e, if_false]
-        have h1 : RInv { s with heap := s.heap ++ [⟨l, np, true⟩] } := rinv_alloc h _ s.nodes
+      · exact h
+      · exact ih _ (winv_store h np l o ho hl) ho hl
+    · simp only [putLoop, e, if_false]
+      split
+      · exact h
+      · have h1 : WInv { s with heap := s.heap ++ [⟨l, np, true⟩] } := winv_alloc h _
         have hnew : s.heap.length < (s.heap ++ [(⟨l, np, true⟩ : Obj)]).length := by simp
-        have h2 := rinv_store (s := { s with heap := s.heap ++ [⟨l, np, true⟩] }) h1 np l s.heap.length hnew
-          (by simp [objPath]) (by simp [objLoc]) (by simp [objValid]) hnot
-        exact ih _ h2 (by simp; omega)
-          (by simp only [objPath] at hp ⊢; simp [List.getElem?_append_left ho, hp])
-          (by simp only [objLoc] at hl ⊢; simp [List.getElem?_append_left ho, hl])
-          (by simp only [objValid] at hv ⊢; simp [List.getElem?_append_left ho, hv])
+        have h2 := winv_store (s := { s with heap := s.heap ++ [⟨l, np, true⟩] }) h1 np l s.heap.length hnew (by simp [objLoc])
+        have hp : objPath { s with heap := s.heap ++ [(⟨l, np, true⟩ : Obj)] } s.heap.length = np := by simp [objPath]
+        rw [hp] at h2
+        exact ih _ h2 (by simp; omega) (by simp only [objLoc] at hl ⊢; simp [List.getElem?_append_left ho, hl])
 
-/-- `register_path` keeps the invariant -/
-theorem rinv_register (s : St) (h : RInv s) (l : Nat) (p : Path) : RInv (register s l p).1 := by
-  simp only [register, put]
-  have h0 : RInv { s with heap := s.heap ++ [⟨l, p, true⟩] } := rinv_alloc h _ s.nodes
-  have hloc : objLoc { s with heap := s.heap ++ [⟨l, p, true⟩] } s.heap.length = l := by simp [objLoc]
-  rw [hloc]
-  apply rinv_putLoop
-  · exact rinv_nodes h0 _
-  · simp
-  · simp [objPath]
-  · simp [objLoc]
-  · simp [objValid]
+theorem winv_put (s : St) (h : WInv s) (p : Path) (o : Nat) (ho : o < s.heap.length) (rec : Bool) :
+    WInv (put s p o rec) := by
+  simp only [put]
+  exact winv_putLoop _ o p _ _ (winv_nodes h p) ho rfl
 
-/-! ### invalidation -/
+theorem put_heap_le (s : St) (p : Path) (o : Nat) (rec : Bool) : s.heap.length ≤ (put s p o rec).heap.length := by
+  simp only [put]
+  generalize (if rec = true then (prefixes p).reverse else [p]) = nps
+  generalize objLoc s o = l
+  have : ∀ (s1 : St), s1.heap.length ≤ (putLoop l o p nps s1).heap.length := by
+    induction nps with
+    | nil => intro s1; exact Nat.le_refl _
+    | cons np rest ih =>
+      intro s1
+      by_cases e : np = p
+      · simp only [putLoop, e, if_true]
+        split
+        · exact Nat.le_refl _
+        · refine Nat.le_trans ?_ (ih _); exact Nat.le_refl _
+      · simp only [putLoop, e, if_false]
+        split
+        · exact Nat.le_refl _
+        · refine Nat.le_trans ?_ (ih _); simp
+  exact this ⟨s.heap, s.nodes ++ prefixes p, s.locs, s.vpaths⟩
 
-/-- the invariant while the marking loop is at work on the node `p` for location `l` -/
-structure MInv (p : Path) (l : Nat) (s : St) : Prop where
-  own : Own s
-  other : ∀ np' l' q, ¬ (np' = p ∧ l' = l) → (q ∈ s.vpaths np' l' ↔ (q = np' ∧ ∃ o ∈ s.locs np' l', objValid s o = true))
-  here : ∀ q ∈ s.vpaths p l, q = p
+theorem winv_register (s : St) (h : WInv s) (l : Nat) (p : Path) : WInv (register s l p).1 := by
+  simp only [register]
+  exact winv_put _ (winv_alloc h _) p s.heap.length (by simp) true
 
-theorem minv_of_rinv {s : St} (h : RInv s) (p : Path) (l : Nat) : MInv p l s :=
-  ⟨h.own, fun np' l' q _ => h.cache np' l' q, fun q hq => ((h.cache p l q).mp hq).1⟩
-
-/-- one assignment pair of the marking loop -/
-def markStep (s : St) (p : Path) (l o : Nat) : St :=
-  { s with heap := s.heap.modify o (fun x => { x with valid := false }),
-           vpaths := upd s.vpaths p l ((s.vpaths p l).filter (· ≠ objPath s o)) }
-
-theorem minv_markStep {p : Path} {l : Nat} {s : St} (h : MInv p l s) (o : Nat) (ho : o ∈ s.locs p l) :
-    MInv p l (markStep s p l o) := by
-  have hs : Shrinks s (markStep s p l o) := shrinks_markStep s p l o
-  have hval : ∀ np' l', ¬ (np' = p ∧ l' = l) → ∀ o' ∈ s.locs np' l', objValid (markStep s p l o) o' = objValid s o' := by
-    intro np' l' hne o' ho'
-    have hne' : o' ≠ o := by
-      intro e; subst e
-      have a := h.own np' l' o' ho'
-      have b := h.own p l o' ho
-      exact hne ⟨a.2.1.symm.trans b.2.1, a.2.2.symm.trans b.2.2⟩
-    simp only [markStep, objValid, modify_get, hne', if_false]
-  constructor
-  · intro np' l' o' ho'
-    obtain ⟨h1, h2, h3⟩ := h.own np' l' o' ho'
-    exact ⟨by rw [hs.len]; exact h1, by rw [hs.objPath]; exact h2, by rw [hs.objLoc]; exact h3⟩
-  · intro np' l' q hne
-    have hv : (markStep s p l o).vpaths np' l' = s.vpaths np' l' := by simp [markStep, upd, hne]
-    rw [hv, h.other np' l' q hne]
-    have hl : (markStep s p l o).locs = s.locs := rfl
-    rw [hl]
-    constructor
-    · rintro ⟨e, o', ho', hv'⟩; exact ⟨e, o', ho', by rw [hval np' l' hne o' ho']; exact hv'⟩
-    · rintro ⟨e, o', ho', hv'⟩; exact ⟨e, o', ho', by rw [hval np' l' hne o' ho'] at hv'; exact hv'⟩
-  · intro q hq
-    simp only [markStep, upd, and_self, if_true] at hq
-    exact h.here q (List.mem_filter.mp hq).1
-
-theorem minv_markLoop (p : Path) (l : Nat) (os : List Nat) (s : St) (h : MInv p l s) (hos : ∀ o ∈ os, o ∈ s.locs p l) :
-    MInv p l (markLoop p l os s) := by
-  induction os generalizing s with
+theorem winv_relateLoop (dst : Nat) (ds : List Nat) (s : St) (h : WInv s) (hd : dst < s.heap.length)
+    (hds : ∀ d ∈ ds, d < s.heap.length) : WInv (relateLoop dst ds s) := by
+  induction ds generalizing s with
   | nil => exact h
-  | cons o os ih =>
-    simp only [markLoop]
-    split
-    · exact ih s h (fun x hx => hos x (List.mem_cons_of_mem _ hx))
-    · exact ih (markStep s p l o) (minv_markStep h o (hos o (by simp))) (fun x hx => hos x (List.mem_cons_of_mem _ hx))
+  | cons d ds ih =>
+    simp only [relateLoop]
+    have h1 := winv_put s h (objPath s d) dst hd false
+    have l1 := put_heap_le s (objPath s d) dst false
+    have h2 := winv_put _ h1 (objPath s dst) d (Nat.lt_of_lt_of_le (hds d (by simp)) l1) false
+    have l2 := put_heap_le (put s (objPath s d) dst false) (objPath s dst) d false
+    exact ih _ h2 (by omega) (fun x hx => by have := hds x (List.mem_cons_of_mem _ hx); omega)
 
-/-- the believed-valid set of the node only shrinks while marking -/
-theorem markLoop_vpaths_sub (p : Path) (l : Nat) (os : List Nat) (s : St) :
-    ∀ q ∈ (markLoop p l os s).vpaths p l, q ∈ s.vpaths p l := by
-  induction os generalizing s with
-  | nil => exact fun _ h => h
-  | cons o os ih =>
-    intro q hq
-    simp only [markLoop] at hq
-    split at hq
-    · exact ih s q hq
-    · have := ih _ q hq
-      simp only [upd, and_self, if_true] at this
-      exact (List.mem_filter.mp this).1
+theorem winv_relate (s : St) (h : WInv s) (src dst : Nat) (hd : dst < s.heap.length) : WInv (relate s src dst) := by
+  simp only [relate]
+  apply winv_relateLoop dst _ s h hd
+  intro d hd'
+  simp only [entriesAt, List.mem_filter, List.mem_range] at hd'
+  exact hd'.1
 
-/-- after marking a non-empty node its own path is no longer believed valid -/
-theorem markLoop_drops (p : Path) (l : Nat) (os : List Nat) (s : St) (hne : os ≠ [])
-    (hp : ∀ o ∈ os, objPath s o = p) : p ∉ (markLoop p l os s).vpaths p l := by
-  cases os with
-  | nil => exact absurd rfl hne
-  | cons o os =>
-    intro hq
-    simp only [markLoop] at hq
-    split at hq
-    · rename_i hc
-      have := markLoop_vpaths_sub p l os s p hq
-      rw [hp o (by simp)] at hc
-      exact hc.2 this
-    · have := markLoop_vpaths_sub p l os _ p hq
-      simp only [upd, and_self, if_true, hp o (by simp)] at this
-      have := (List.mem_filter.mp this).2
-      simp at this
-
-theorem rinv_mark {s : St} (h : RInv s) (p : Path) (l : Nat) : RInv (markLoop p l (s.locs p l) s) := by
-  have hm := minv_markLoop p l (s.locs p l) s (minv_of_rinv h p l) (fun _ ho => ho)
+/-- marking a whole node keeps the invariant -/
+theorem winv_mark {s : St} (h : WInv s) (p : Path) (l : Nat) : WInv (markLoop p l (s.locs p l) s) := by
   have hs := shrinks_markLoop p l (s.locs p l) s
-  refine ⟨hm.own, ?_⟩
-  intro np' l' q
-  by_cases hc : np' = p ∧ l' = l
-  · obtain ⟨rfl, rfl⟩ := hc
-    constructor
-    · intro hq
-      exfalso
-      have e := hm.here q hq
-      subst e
-      by_cases hemp : s.locs q l' = []
-      · rw [hemp] at hq
-        simp only [markLoop] at hq
-        obtain ⟨_, o, ho, _⟩ := (h.cache q l' q).mp hq
-        rw [hemp] at ho; cases ho
-      · exact markLoop_drops q l' (s.locs q l') s hemp (fun o ho => (h.own q l' o ho).2.1) hq
-    · rintro ⟨_, o, ho, hv⟩
-      rw [hs.locs] at ho
-      rw [markLoop_invalid np' l' (s.locs np' l') s o ho] at hv
-      cases hv
-  · exact hm.other np' l' q hc
+  refine ⟨?_, ?_, by rw [hs.nodes]; exact h.closed⟩
+  · intro np l' o ho
+    rw [hs.locs] at ho
+    obtain ⟨h1, h2⟩ := h.key np l' o ho
+    exact ⟨by rw [hs.len]; exact h1, by rw [hs.objLoc]; exact h2⟩
+  · intro np l' o ho hv
+    rw [hs.locs] at ho
+    by_cases hc : np = p ∧ l' = l
+    · obtain ⟨rfl, rfl⟩ := hc
+      rw [markLoop_invalid np l' (s.locs np l') s o ho] at hv; cases hv
+    · rw [markLoop_vpaths_other p l _ s np l' hc, hs.objPath]
+      exact h.listed np l' o ho (hs.valid o hv)
 
-/-- `invalidate_location` keeps the invariant (when it returns) -/
-theorem rinv_invalidate (fuel : Nat) :
-    (∀ s l p s', RInv s → invalidate fuel s l p = .ok s' → RInv s') ∧
-    (∀ s l cs s', RInv s → childLoop fuel s l cs = .ok s' → RInv s') ∧
-    (∀ s l os s', RInv s → entryLoop fuel s l os = .ok s' → RInv s') := by
-  induction fuel with
-  | zero => simp [invalidate, childLoop, entryLoop]
-  | succ f ih =>
-    obtain ⟨iA, iB, iC⟩ := ih
-    refine ⟨?_, ?_, ?_⟩
-    · intro s l p s' hr h
-      simp only [invalidate] at h
-      split at h
-      · cases h
-      · exact iB _ _ _ _ (rinv_mark hr p l) h
-    · intro s l cs s' hr h
-      cases cs with
-      | nil => simp only [childLoop] at h; injection h with h; subst h; exact hr
-      | cons c cs =>
-        simp only [childLoop] at h
-        split at h
-        · rename_i s1 h1
-          exact iB _ _ _ _ (iC _ _ _ _ hr h1) h
-        · rename_i hne
-          exact absurd h (hne s')
-    · intro s l os s' hr h
-      cases os with
-      | nil => simp only [entryLoop] at h; injection h with h; subst h; exact hr
-      | cons o os =>
-        simp only [entryLoop] at h
-        split at h
-        · split at h
-          · rename_i s1 h1
-            exact iC _ _ _ _ (iA _ _ _ _ hr h1) h
-          · rename_i hne
-            exact absurd h (hne s')
-        · exact iC _ _ _ _ hr h
+theorem winv_invNode (depth : Nat) : ∀ s l p, WInv s → WInv (invNode depth s l p) := by
+  induction depth with
+  | zero => intro s l p h; exact winv_mark h p l
+  | succ d ih =>
+    intro s l p h
+    simp only [invNode]
+    have key : ∀ (cs : List Path) (s0 : St), WInv s0 → WInv (cs.foldl (fun s c => invNode d s l c) s0) := by
+      intro cs
+      induction cs with
+      | nil => exact fun _ h0 => h0
+      | cons c cs ihc => intro s0 h0; exact ihc _ (ih s0 l c h0)
+    exact key _ _ (winv_mark h p l)
 
-/-! ### histories without relations -/
+/-! ### what the walk reaches -/
 
-/-- registrations and invalidations (a `KeyError` or an unfinished call leaves the state) -/
-inductive ROp where
-  | register (l : Nat) (p : Path)
-  | invalidate (fuel : Nat) (l : Nat) (p : Path)
+theorem le_height (s : St) (q : Path) (hq : q ∈ s.nodes) : q.length ≤ height s := by
+  unfold height
+  have : ∀ (l : List Path) (m : Nat), (q ∈ l → q.length ≤ l.foldl (fun m q => max m q.length) m) ∧
+      m ≤ l.foldl (fun m q => max m q.length) m := by
+    intro l
+    induction l with
+    | nil => intro m; simp
+    | cons a l ih =>
+      intro m
+      simp only [List.foldl_cons, List.mem_cons]
+      have := ih (max m a.length)
+      refine ⟨?_, by omega⟩
+      rintro (rfl | h)
+      · omega
+      · exact this.1 h
+  exact (this s.nodes 0).1 hq
 
-def applyR (s : St) : ROp → St
-  | .register l p => (register s l p).1
-  | .invalidate fuel l p => match invalidate fuel s l p with
-                            | .ok s' => s'
-                            | _ => s
+/-- every object stored for `l` at a node of the subtree of `p` is invalid after the walk, provided the depth budget
+    covers the node -/
+theorem invNode_reaches (depth : Nat) : ∀ (s : St) (l : Nat) (p q : Path), WInv s → q ∈ s.nodes ∨ q = p → p <+: q →
+    q.length ≤ p.length + depth → ∀ o ∈ s.locs q l, objValid (invNode depth s l p) o = false := by
+  induction depth with
+  | zero =>
+    intro s l p q _ _ hpre hlen o ho
+    have : q = p := by
+      obtain ⟨r, rfl⟩ := hpre
+      have : r = [] := by cases r with
+        | nil => rfl
+        | cons a r => simp at hlen; omega
+      simp [this]
+    subst this
+    exact markLoop_invalid q l _ s o ho
+  | succ d ih =>
+    intro s l p q hW hq hpre hlen o ho
+    simp only [invNode]
+    have hs1 := shrinks_markLoop p l (s.locs p l) s
+    have hW1 := winv_mark hW p l
+    -- validity never comes back along the fold
+    have hfold : ∀ (cs : List Path) (s0 : St), Shrinks s0 (cs.foldl (fun s c => invNode d s l c) s0) := by
+      intro cs
+      induction cs with
+      | nil => exact fun s0 => shrinks_refl s0
+      | cons c cs ihc => intro s0; exact shrinks_trans (shrinks_invNode d s0 l c) (ihc _)
+    by_cases hqp : q = p
+    · subst hqp
+      cases hv : objValid (List.foldl (fun s c => invNode d s l c) (markLoop q l (s.locs q l) s) (children s q)) o with
+      | false => rfl
+      | true =>
+        have := (hfold _ _).valid o hv
+        rw [markLoop_invalid q l _ s o ho] at this; cases this
+    · -- q lies below the child c = p ++ [x]
+      obtain ⟨r, rfl⟩ := hpre
+      cases r with
+      | nil => simp at hqp
+      | cons x r =>
+        have hqn : p ++ x :: r ∈ s.nodes := by
+          rcases hq with h | h
+          · exact h
+          · exact absurd h hqp
+        have hc : p ++ [x] ∈ s.nodes := hW.closed _ hqn _ ⟨r, by simp⟩ (by simp)
+        have hcc : p ++ [x] ∈ children s p := by
+          simp only [children]
+          apply List.mem_eraseDups.mpr
+          simp only [List.mem_filter, decide_eq_true_eq, Bool.and_eq_true, List.isPrefixOf_iff_prefix]
+          exact ⟨hc, by simp, ⟨[x], rfl⟩⟩
+        -- walk along the fold up to c
+        have key : ∀ (cs : List Path) (s0 : St), WInv s0 → s0.nodes = s.nodes → s0.locs = s.locs → p ++ [x] ∈ cs →
+            objValid (cs.foldl (fun s c => invNode d s l c) s0) o = false := by
+          intro cs
+          induction cs with
+          | nil => intro _ _ _ _ hm; cases hm
+          | cons c cs ihc =>
+            intro s0 hW0 hn0 hl0 hm
+            simp only [List.foldl_cons]
+            by_cases hcx : c = p ++ [x]
+            · subst hcx
+              have hreach := ih s0 l (p ++ [x]) (p ++ x :: r) hW0 (Or.inl (by rw [hn0]; exact hqn)) ⟨r, by simp⟩
+                (by simp at hlen ⊢; omega) o (by rw [hl0]; exact ho)
+              cases hv : objValid (List.foldl (fun s c => invNode d s l c) (invNode d s0 l (p ++ [x])) cs) o with
+              | false => rfl
+              | true => have := (hfold cs _).valid o hv; rw [hreach] at this; cases this
+            · have hsh := shrinks_invNode d s0 l c
+              exact ihc _ (winv_invNode d s0 l c hW0) (by rw [hsh.nodes, hn0]) (by rw [hsh.locs, hl0])
+                (by rcases List.mem_cons.mp hm with h | h
+                    · exact absurd h.symm hcx
+                    · exact h)
+        exact key _ _ hW1 hs1.nodes hs1.locs hcc
 
-def runR (ops : List ROp) : St := ops.foldl applyR St.init
-
-theorem rinv_foldl (ops : List ROp) (s : St) (h : RInv s) : RInv (ops.foldl applyR s) := by
-  induction ops generalizing s with
-  | nil => exact h
-  | cons op ops ih =>
-    apply ih
-    cases op with
-    | register l p => exact rinv_register s h l p
-    | invalidate fuel l p =>
-      simp only [applyR]
-      cases hr : invalidate fuel s l p with
-      | ok s' => exact (rinv_invalidate fuel).1 s l p s' h hr
-      | keyError => exact h
-      | recursion => exact h
-
-theorem rinv_runR (ops : List ROp) : RInv (runR ops) := rinv_foldl ops St.init rinv_init
+/-- objects stored under another location are never touched -/
+theorem invNode_other (depth : Nat) : ∀ (s : St) (l : Nat) (p : Path), WInv s → ∀ o, objLoc s o ≠ l →
+    objValid (invNode depth s l p) o = objValid s o := by
+  have hmark : ∀ (s : St) (l : Nat) (p : Path), WInv s → ∀ o, objLoc s o ≠ l →
+      objValid (markLoop p l (s.locs p l) s) o = objValid s o := by
+    intro s l p hW o hne
+    apply markLoop_valid_other
+    intro hm
+    exact hne (hW.key p l o hm).2
+  induction depth with
+  | zero => intro s l p hW o hne; exact hmark s l p hW o hne
+  | succ d ih =>
+    intro s l p hW o hne
+    simp only [invNode]
+    have key : ∀ (cs : List Path) (s0 : St), WInv s0 → objLoc s0 o ≠ l →
+        objValid (cs.foldl (fun s c => invNode d s l c) s0) o = objValid s0 o := by
+      intro cs
+      induction cs with
+      | nil => intro _ _ _; rfl
+      | cons c cs ihc =>
+        intro s0 hW0 hne0
+        simp only [List.foldl_cons]
+        rw [ihc _ (winv_invNode d s0 l c hW0) (by rw [(shrinks_invNode d s0 l c).objLoc]; exact hne0)]
+        exact ih s0 l c hW0 o hne0
+    have hs1 := shrinks_markLoop p l (s.locs p l) s
+    rw [key _ _ (winv_mark hW p l) (by rw [hs1.objLoc]; exact hne)]
+    exact hmark s l p hW o hne
 
 end SFV.Registry
